@@ -551,6 +551,9 @@ def shard(ctx, acc):
         probs = [p for p in probs if p not in inc]
         if probs:
             acc.violation(probs[0][0], probs[:2], {"family": "LONGPOLL", "j": j})
+    if ctx.shard == 0:
+        from vlib import probes as P
+        P.run_fixed_demos(PROP, acc)
     if ctx.shard == 0 and k8_probe():
         acc.known_hit("K8", {"steps": ["start", "notify a", "stop(forever=False)", "start", "notify b", "b never delivered"]})
 
